@@ -5,6 +5,7 @@
   Facts: NutsModel/Facts/C17.lean is REGENERATED from /repo on every run.
 -/
 import NutsModel.C17.TokenPolicy
+import NutsModel.C17.Jwk
 import NutsModel.Facts.C17
 import NutsProofs.Lemmas.C17
 
@@ -421,5 +422,112 @@ example : dagTx Facts.C17.dagAllowedAlgs true true
     { resolve := fun _ => some "K", embeddedKey := fun _ => none, verifies := fun _ _ _ => true, verifiesSplit := fun _ _ _ => false } true true
     { parses := true, splitOK := true, sigs := [{ alg := "ES256", kid := "did:nuts:a#k", jwk := .absent, hdrs := [], typ := "" }] }
     = .accept [{ key := "K", src := .resolver "did:nuts:a#k", alg := "ES256", idx := 0, overSigningInput := true }] := by decide
+
+
+/-! ### Deepening round 2: clause (e) INSIDE the embedded jwk header (NutsModel/C17/Jwk.lean) — dpop.jwkIsPrivateKey over the
+    regenerated probe sequence, the type switch of dag.parseSignatureParams over the regenerated interface list -/
+section JwkObject
+open Nuts.C17.Jwk
+
+theorem fact_dpop_private_probes :
+    Facts.C17.dpopPrivateProbes = ["rsa.PrivateKey", "ecdsa.PrivateKey", "ed25519.PrivateKey"] ∧
+    Facts.C17.dpopPrivateProbeDefault = false ∧
+    Facts.C17.parseSignatureParamsRejectedKeyTypes = ["jwk.ECDSAPrivateKey", "jwk.RSAPrivateKey", "jwk.OKPPrivateKey", "jwk.SymmetricKey"] := by decide
+
+theorem dag_refuses_exactly_the_secret_jwks (t : JwkType) :
+    dagRefusesJwk Facts.C17.parseSignatureParamsRejectedKeyTypes t = holdsSecret t := by
+  cases t <;> decide
+
+theorem dpop_private_test_exact (t : JwkType) (crv : String) :
+    jwkIsPrivateKey Facts.C17.dpopPrivateProbes Facts.C17.dpopPrivateProbeDefault t crv = true ↔
+      (t = .rsaPriv ∨ t = .ecPriv ∨ t = .sym ∨ (t = .okpPriv ∧ crv = "Ed25519")) := by
+  cases t <;> simp [jwkIsPrivateKey, Facts.C17.dpopPrivateProbes, Facts.C17.dpopPrivateProbeDefault, rawInto, List.any]
+
+theorem dpop_private_test_misses_other_okp_curves :
+    jwkIsPrivateKey Facts.C17.dpopPrivateProbes Facts.C17.dpopPrivateProbeDefault .okpPriv "X25519" = false ∧
+    holdsSecret .okpPriv = true := by decide
+
+theorem map_eq_singleton {α β} {f : α → β} {l : List α} {b : β} (h : l.map f = [b]) : ∃ a, l = [a] ∧ f a = b := by
+  match l, h with
+  | [a], h => exact ⟨a, rfl, by simpa using h⟩
+
+theorem accept_dpopJ (E : Env) (claimsOK : Bool) (j : Jws) (o : Option JwkObj) (vs : List Verified)
+    (h : dpopParseJ Facts.C17.supportedAlgs Facts.C17.dpopTyp Facts.C17.dpopPrivateProbes Facts.C17.dpopPrivateProbeDefault E claimsOK j o = .accept vs) :
+    ∃ ob t s k, o = some ob ∧ typeOf ob = some t ∧ j.sigs = [s] ∧ E.verifies k s.alg 0 = true ∧
+      t ≠ .rsaPriv ∧ t ≠ .ecPriv ∧ t ≠ .sym ∧ ¬ (t = .okpPriv ∧ ob.crv = "Ed25519") ∧
+      ((∀ k a, t = .okpPriv → E.verifies k a 0 = false) → holdsSecret t = false) := by
+  unfold dpopParseJ at h
+  split at h; · cases h
+  next kd hk =>
+  obtain ⟨s', k, hs, _, _, _, hj1, hj2, _, hver, _⟩ := dpop_accept h
+  obtain ⟨s, hs0, hs1⟩ := map_eq_singleton hs
+  have hjk : s'.jwk = kd := by rw [← hs1]
+  rw [hjk] at hj1 hj2
+  have halg : s'.alg = s.alg := by rw [← hs1]
+  rw [halg] at hver
+  cases o with
+  | none => simp [kindOf] at hk; exact absurd hk.symm hj1
+  | some ob =>
+    simp only [kindOf] at hk
+    split at hk; · cases hk
+    next t ht =>
+    have hp : jwkIsPrivateKey Facts.C17.dpopPrivateProbes Facts.C17.dpopPrivateProbeDefault t ob.crv = false := by
+      cases hpp : jwkIsPrivateKey Facts.C17.dpopPrivateProbes Facts.C17.dpopPrivateProbeDefault t ob.crv with
+      | false => rfl
+      | true => rw [hpp] at hk; simp at hk; exact absurd hk.symm hj2
+    have hne : ¬ (t = .rsaPriv ∨ t = .ecPriv ∨ t = .sym ∨ (t = .okpPriv ∧ ob.crv = "Ed25519")) := by
+      intro hc; rw [(dpop_private_test_exact t ob.crv).2 hc] at hp; cases hp
+    refine ⟨ob, t, s, k, rfl, ht, hs0, hver, fun e => hne (.inl e), fun e => hne (.inr (.inl e)), fun e => hne (.inr (.inr (.inl e))),
+      fun e => hne (.inr (.inr (.inr e))), ?_⟩
+    intro hc
+    cases t with
+    | ecPub | rsaPub | okpPub => rfl
+    | ecPriv => exact absurd (.inr (.inl rfl)) hne
+    | rsaPriv => exact absurd (.inl rfl) hne
+    | sym => exact absurd (.inr (.inr (.inl rfl))) hne
+    | okpPriv => rw [hc k s.alg rfl] at hver; cases hver
+
+theorem accept_dagTxJ (E : Env) (otherOK framingOK : Bool) (j : Jws) (o : Option JwkObj) (vs : List Verified)
+    (h : dagTxJ Facts.C17.dagAllowedAlgs Facts.C17.parseSignatureParamsRejectedKeyTypes Facts.C17.dagStrictFraming E otherOK framingOK j o = .accept vs) :
+    o = none ∨ ∃ ob t, o = some ob ∧ typeOf ob = some t ∧ holdsSecret t = false := by
+  unfold dagTxJ at h
+  split at h; · cases h
+  next kd hk =>
+  obtain ⟨s', v, hs, _, _, _, _, _, _, _, hpriv, _, _⟩ := dagTx_accept h
+  obtain ⟨s, hs0, hs1⟩ := map_eq_singleton hs
+  have hjk : s'.jwk = kd := by rw [← hs1]
+  have hj2 := hpriv rfl
+  rw [hjk] at hj2
+  cases o with
+  | none => exact .inl rfl
+  | some ob =>
+    right
+    simp only [kindOf] at hk
+    split at hk; · cases hk
+    next t ht =>
+    refine ⟨ob, t, rfl, ht, ?_⟩
+    rw [← dag_refuses_exactly_the_secret_jwks]
+    cases hpp : dagRefusesJwk Facts.C17.parseSignatureParamsRejectedKeyTypes t with
+    | false => rfl
+    | true => simp [hpp] at hk; exact absurd hk.symm hj2
+
+
+/-- non-vacuity: a DPoP proof with a public EC jwk is accepted, a DAG transaction with a public EC jwk is accepted -/
+example : ∃ vs, dpopParseJ Facts.C17.supportedAlgs Facts.C17.dpopTyp Facts.C17.dpopPrivateProbes Facts.C17.dpopPrivateProbeDefault
+    { resolve := fun _ => none, embeddedKey := fun _ => some "E", verifies := fun _ _ _ => true, verifiesSplit := fun _ _ _ => false } true
+    { parses := true, splitOK := true, sigs := [{ alg := "ES256", kid := "", jwk := .absent, hdrs := ["jwk"], typ := "dpop+jwt" }] }
+    (some { kty := "EC", crv := "P-256", hasD := false }) = .accept vs :=
+  ⟨[{ key := "E", src := .embedded 0, alg := "ES256", idx := 0, overSigningInput := true }], by decide⟩
+example : ∃ vs, dagTxJ Facts.C17.dagAllowedAlgs Facts.C17.parseSignatureParamsRejectedKeyTypes Facts.C17.dagStrictFraming
+    { resolve := fun _ => none, embeddedKey := fun _ => some "E", verifies := fun _ _ _ => true, verifiesSplit := fun _ _ _ => false } true true
+    { parses := true, splitOK := true, sigs := [{ alg := "ES256", kid := "", jwk := .absent, hdrs := ["jwk"], typ := "" }] }
+    (some { kty := "EC", crv := "P-256", hasD := false }) = .accept vs :=
+  ⟨[{ key := "E", src := .embedded 0, alg := "ES256", idx := 0, overSigningInput := true }], by decide⟩
+/-- … and the same tokens with the PRIVATE key / an octet key are rejected -/
+example : dpopParseJ Facts.C17.supportedAlgs Facts.C17.dpopTyp Facts.C17.dpopPrivateProbes Facts.C17.dpopPrivateProbeDefault
+    { resolve := fun _ => none, embeddedKey := fun _ => some "E", verifies := fun _ _ _ => true, verifiesSplit := fun _ _ _ => false } true
+    { parses := true, splitOK := true, sigs := [{ alg := "ES256", kid := "", jwk := .absent, hdrs := ["jwk"], typ := "dpop+jwt" }] }
+    (some { kty := "oct", crv := "", hasD := false }) = .reject := by decide
+end JwkObject
 
 end Nuts.C17.Props
